@@ -536,6 +536,9 @@ def plan(tier, seed):
         specs.append(dict(name="wire-%d" % i, kind="wire", n=30 if tier == "quick" else 400, classes=class_names()[i::4]))
     for i in range(4):
         specs.append(dict(name="minonoff-%d" % i, kind="minonoff", n=400 if tier == "quick" else 6000))
+    # once more with the library's debug tracing switched on
+    specs.append(dict(name="tracing-random", kind="random", n=15 if tier == "quick" else 200, classes=class_names(), tracing=True))
+    specs.append(dict(name="tracing-minonoff", kind="minonoff", n=100 if tier == "quick" else 1500, tracing=True))
     return specs
 
 
